@@ -271,14 +271,12 @@ class DictEnv:
 
     async def add_user(self, name: str, password: str,
                        roles=frozenset()) -> None:
+        """Add a user (roles are a frozenset on the UserMetadata kept in
+        Login.users_dict)."""
         from pymap.user import Passwords, UserMetadata
-        from pymap.backend.dict import Identity
-        login = self.backend.login
         hashed = await Passwords(self.config).hash_password(password)
-        ident = Identity(name, login, roles and set(roles))
-        await ident.set(UserMetadata(self.config, name, password=hashed,
-                                     **({'role': next(iter(roles))}
-                                        if roles else {})))
+        self.backend.login.users_dict[name] = UserMetadata(
+            self.config, name, password=hashed, roles=frozenset(roles))
 
     def close(self) -> None:
         pass
